@@ -54,8 +54,8 @@ def sig_event(ev, sform="pinned"):
                 return ["G", ev[1] + "T"]
             if ev[1] == "sleep":
                 return ["G", "wake"]
-            if ev[1] in ("cancelled", "end", "time"):
-                return None
+            if ev[1] in ("cancelled", "end", "time", "kill"):
+                return None             # (kill: checked by `obs gkill`, see project_sig)
     if len(ev) < 2:
         return None
     ev = list(ev) + ["", "", ""]
@@ -92,6 +92,8 @@ def sig_event(ev, sform="pinned"):
                 return [th, "connectEnd", "?"]
         if e in ("connectBegin", "destroyBegin", "destroyEnd"):
             return [th, e]
+        if e == "fwd" and a == th[1:] and ev[3] == "15":
+            return None                 # the worker ends its own command after a time-out (SIGTERM): not a protocol step
         if e in ("fwd", "wait", "kill"):
             return [th, e, a]
         return None
@@ -188,12 +190,21 @@ def project_sig(res, variant, wform="blind", sform="pinned"):
         fe = sig_event(ev, sform)
         if fe is None and th.startswith("W") and len(ev) > 1 and ev[1] == "time" and stage.get(th) == "updT":
             fe = [th, "time"]       # the time() call inside _update_connect_state (precedes the state update)
+        if th == "G" and len(ev) > 1 and ev[1] == "kill" and sform == "stopwdog":
+            L.append("obs gkill")
         if fe is None:
             continue
         if fe[0].startswith("W") and fe[1] == "lockT" and stage.get(fe[0]) == "body":
+            # the read loop was given up (time-out, read error): the result written under thd_mutex is DSH_FAILED
+            nts = next_ts(evs, pos)
+            w = int(fe[0][1:])
+            gave_up = bool(nts and nts != "-" and w < len(nts) and nts[w] == "4")
             if opts.get("pers") != "pcp":       # a copy (stub pcp_client) does not poll: the path is not observable
-                L.append("obs path %s %s" % (fe[0][1:], "reading" if polled.get(fe[0]) else "closing"))
+                # (a loop given up at its top, before the first poll, was entered all the same: a canceled host is DONE)
+                L.append("obs path %s %s" % (fe[0][1:], "reading" if polled.get(fe[0]) or gave_up else "closing"))
             stage[fe[0]] = "res"
+            if gave_up:
+                fe = [fe[0], "lockTF"]
         if fe[0] == "Z" and fe[1] == "sigwait":
             flush_list()
         if kind == "E" and s is not None:
@@ -239,6 +250,14 @@ def project_sig(res, variant, wform="blind", sform="pinned"):
     else:
         L.append("end " + status)
     return L
+
+
+def next_ts(evs, pos):
+    """t[i].state digits of the first state line after evs[pos] (the state the step leads to), or None"""
+    for kind, s, ev in evs[pos + 1:]:
+        if kind == "E" and s is not None:
+            return s.get("ts")
+    return None
 
 
 def cancel_deferred(evs, pos):
@@ -697,7 +716,7 @@ def offenders(res, base):
                 elif want is not None and ran and got != want and not (h["timedout"] and want.startswith(got)):
                     # (a host pdsh gave up on after a time-out did not complete: what it printed before is relayed)
                     out.append(("output-corrupted", "host %d completed with output %r instead of %r" % (i, got[:80], want[:80])))
-                elif want is not None and h["cbegin"] is not None and not ran and i not in marked_any:
+                elif want is not None and h["cbegin"] is not None and not ran and i not in marked_any and not h["timedout"]:
                     out.append(("output-missing", "host %d was not canceled but its output was not relayed" % i))
             elif got:
                 out.append(("canceled-host-output", "host %d was canceled while connecting but relayed %r" % (i, got[:60])))
